@@ -33,6 +33,10 @@ ASSUMPTIONS = [
 DRIVER = "source_finder.SourceFinder.find_sources_in_image"
 
 MUTANTS = [
+    ("errors from a Jacobian that is not scaled by the noise",
+     "AegeanTools/fitting.py",
+     "            J = lmfit_jacobian(params, mask[0], mask[1], B=B, errs=errs)",
+     "            J = lmfit_jacobian(params, mask[0], mask[1], B=B)", "C01-R14"),
     ("driver hands the background map to find_islands",
      "AegeanTools/source_finder.py",
      "bkg=np.zeros_like(data),", "bkg=global_data.bkgimg,", "C01-R13"),
@@ -229,6 +233,11 @@ def run(ctx):
     # segmented (shared with C02-R9)
     from .c02 import r9_background
     r9_background(ctx, prog, rule="C01-R13")
+    # the reported standard errors come from the Fisher matrix of the
+    # Jacobian whitened exactly like the fit (shared with C04-R4 / R5)
+    from .c04 import find_roles, r4_r5
+    fit_, wrapper_, _jac, _dfun = find_roles(prog)
+    r4_r5(ctx, prog, fit_, wrapper_, r4="C01-R14", r5="C01-R14")
     # ---------------------------------------------------------------- R4
     n = rules_num.lmfit_int_uses(ctx, "C01-R4", reach)
     ctx.note("C01-R4: %d int-only uses of coerced lmfit values" % n)
